@@ -1,0 +1,71 @@
+//go:build verif
+
+package gortsplib
+
+import "time"
+
+// VerifSetTimers sets private timing parameters (runtime verification hook).
+// It must be called before Start. Zero values leave the defaults untouched.
+func (s *Server) VerifSetTimers(
+	now func() time.Time,
+	senderReportPeriod time.Duration,
+	receiverReportPeriod time.Duration,
+	checkStreamPeriod time.Duration,
+) {
+	if now != nil {
+		s.timeNow = now
+	}
+	if senderReportPeriod != 0 {
+		s.senderReportPeriod = senderReportPeriod
+	}
+	if receiverReportPeriod != 0 {
+		s.receiverReportPeriod = receiverReportPeriod
+	}
+	if checkStreamPeriod != 0 {
+		s.checkStreamPeriod = checkStreamPeriod
+	}
+}
+
+// VerifUDPClients returns the number of registered UDP peers of the RTP and RTCP listeners
+// (runtime verification hook).
+func (s *Server) VerifUDPClients() (int, int) {
+	count := func(l *serverUDPListener) int {
+		if l == nil {
+			return 0
+		}
+		l.clientsMutex.RLock()
+		defer l.clientsMutex.RUnlock()
+		return len(l.clients)
+	}
+	return count(s.udpRTPListener), count(s.udpRTCPListener)
+}
+
+// VerifSetTimers sets private timing parameters (runtime verification hook).
+// It must be called before Start. Zero values leave the defaults untouched.
+func (c *Client) VerifSetTimers(
+	now func() time.Time,
+	senderReportPeriod time.Duration,
+	receiverReportPeriod time.Duration,
+	checkTimeoutPeriod time.Duration,
+) {
+	if now != nil {
+		c.timeNow = now
+	}
+	if senderReportPeriod != 0 {
+		c.senderReportPeriod = senderReportPeriod
+	}
+	if receiverReportPeriod != 0 {
+		c.receiverReportPeriod = receiverReportPeriod
+	}
+	if checkTimeoutPeriod != 0 {
+		c.checkTimeoutPeriod = checkTimeoutPeriod
+	}
+}
+
+// VerifReaders returns the number of readers, active unicast readers and multicast readers
+// of the stream (runtime verification hook).
+func (st *ServerStream) VerifReaders() (int, int, int) {
+	st.mutex.RLock()
+	defer st.mutex.RUnlock()
+	return len(st.readers), len(st.activeUnicastReaders), st.multicastReaderCount
+}
